@@ -81,8 +81,10 @@ PROPS = {
         "namespace": "Cuke.C02",
         # trace.run (request mon.traced only): with the tracing integration Log events are events of an attempt too
         "families": [("attempt.run", 800, 30000), ("sched.run", 1000, 40000), ("sched.lazy", 600, 30000), ("match.find", 6000, 200000), ("trace.run", 200, 3000)],
-        "segments": {"attempt.run": [0], "sched.run": [13]},
-        "segment_names": ['c02'],
+        # class A of the acceptor: a scenario event sent for an attempt that is not in flight (theorem
+        # lts_scenario_event_of_attempt_in_flight)
+        "segments": {"attempt.run": [0], "sched.run": [6, 13]},
+        "segment_names": ['A', 'c02'],
         "skip_prefixes": ["mon.c09", "mon.c10", "mon.c20"],
         "modelled_not_verified": [
             "catch_unwind / unwinding: a panic is an outcome value of the model",
